@@ -961,6 +961,38 @@ fn radau_pade() -> Option<String> {
     None
 }
 
+/// C11: no reported interval longer than max_step (the final one may stretch by 1%), automatic first steps included, both directions;
+/// a first_step not larger than max_step or the span is the first reported interval when accepted; the budget bounds the step count
+fn step_bounds() -> Option<String> {
+    struct Slow; impl IVP for Slow { fn ode(&self, t: f64, y: &[f64], d: &mut [f64]) { d[0] = -0.01 * y[0] + 1e-3 * t; d[1] = 0.02 * y[0] - 0.01 * y[1]; } }
+    for m in [Method::RK23, Method::DOPRI5, Method::DOP853, Method::RADAU, Method::BDF] {
+        for &(x0, xe) in &[(0.0f64, 40.0f64), (5.0, -35.0)] {
+            for &hmax in &[0.7f64, 3.0] {
+                let s = match solve_ivp(&Slow, x0, xe, &[1.0, 0.5], Options::builder().method(m.clone()).rtol(1e-3).atol(1e-6).max_step(hmax).build()) { Ok(s) => s, Err(e) => return Some(format!("{:?}: {:?}", m, e)) };
+                let k = s.t.len();
+                for i in 1..k {
+                    let len = (s.t[i] - s.t[i - 1]).abs();
+                    let allow = if i == k - 1 { hmax * 1.01 } else { hmax } + 4.0 * f64::EPSILON * (s.t[i].abs() + s.t[i - 1].abs() + hmax);   // t[i] = t[i-1] + h is rounded
+                    if len > allow { return Some(format!("{:?} on [{}, {}] with max_step = {}: reported interval {} of {} is [{:e}, {:e}], length {:e}", m, x0, xe, hmax, i, k - 1, s.t[i - 1], s.t[i], len)); }
+                }
+                if s.status != Status::Success { return Some(format!("{:?} on [{}, {}] with max_step = {}: status {:?}", m, x0, xe, hmax, s.status)); }
+            }
+            for &fs in &[0.01f64, 0.25] {
+                let s = match solve_ivp(&Slow, x0, xe, &[1.0, 0.5], Options::builder().method(m.clone()).rtol(1e-3).atol(1e-6).first_step(fs).build()) { Ok(s) => s, Err(e) => return Some(format!("{:?}: {:?}", m, e)) };
+                if s.nrejct == 0 && s.t.len() >= 2 && !(((s.t[1] - s.t[0]).abs() - fs).abs() <= 4.0 * f64::EPSILON * (x0.abs() + fs)) {
+                    return Some(format!("{:?} on [{}, {}] with first_step = {} and no rejected step: the first reported interval is [{:e}, {:e}]", m, x0, xe, fs, s.t[0], s.t[1]));
+                }
+            }
+            for &b in &[3usize, 10] {
+                let s = match solve_ivp(&Slow, x0, xe, &[1.0, 0.5], Options::builder().method(m.clone()).rtol(1e-8).atol(1e-10).max_steps(b).build()) { Ok(s) => s, Err(e) => return Some(format!("{:?}: {:?}", m, e)) };
+                let plain = match solve_ivp(&Slow, x0, xe, &[1.0, 0.5], Options::builder().method(m.clone()).rtol(1e-8).atol(1e-10).build()) { Ok(s) => s, Err(e) => return Some(format!("{:?}: {:?}", m, e)) };
+                if s.nstep > b + 1 || (plain.nstep > b && s.status != Status::NeedLargerNMax) || (plain.nstep <= b && s.status != Status::Success) { return Some(format!("{:?} on [{}, {}] with max_steps = {}: nstep = {}, status {:?}", m, x0, xe, b, s.nstep, s.status)); }
+            }
+        }
+    }
+    None
+}
+
 fn main() {
     let which = std::env::args().nth(1).unwrap_or_default();
     let r = match which.as_str() {
@@ -971,6 +1003,7 @@ fn main() {
         "default_mass" => default_mass(),
         "matrix_dense_model" => matrix_dense_model(),
         "lu_small" => lu_small(),
+        "step_bounds" => step_bounds(),
         "time_reflection" => time_reflection(),
         "pow2_scaling" => pow2_scaling(),
         "output_options" => output_options(),
